@@ -155,13 +155,13 @@ class Collector:
         self.stats['solver_time_s'] += dt
         return str(r), (s.model() if r == z3.sat else None), dt
 
-    def solve_cvc5(self, terms, timeout_ms=None, want=()):
+    def solve_cvc5(self, terms, timeout_ms=None, want=(), logic='QF_BVFP'):
         """Same query through cvc5 (floating-point queries: ~3x faster than z3's bit-blaster here).
         Returns (verdict, {name: int value} for the bit-vector constants named in `want`, seconds)."""
         import cvc5
         s = z3.Solver()
         s.add(*terms)
-        text = '(set-logic QF_BVFP)\n' + s.to_smt2()
+        text = f'(set-logic {logic})\n' + s.to_smt2()
         text = text.replace('(check-sat)', '')
         slv = cvc5.Solver()
         slv.setOption('produce-models', 'true')
